@@ -128,6 +128,12 @@ def _structure(out, rfi, obs):
     obs.claim('model_identity', bool(np.allclose(bm, sc - auto_fit, rtol=1e-9, atol=1e-9 * max(1.0, auto_fit))),
               'beads_model(x) != std_crv(x) - autofluorescence')
     obs.claim('names', list(out[4]) == ['m', 'b', 'fl_mef_auto'] and isinstance(out[3], str), 'parameter names')
+    # several channels at once: a two-dimensional array is converted element by element, signs and all
+    g2 = np.array([[grid[3], -grid[5]], [-grid[7], grid[9]], [grid[11], grid[13]], [-grid[15], -grid[17]]])
+    v2 = call(std_crv, g2)
+    ref2 = np.array([[float(std_crv(float(v))) for v in row] for row in g2])
+    obs.claim('odd', not raised(v2) and np.asarray(v2).shape == g2.shape and bool(np.allclose(np.asarray(v2, dtype=float), ref2, rtol=1e-12)),
+              lambda: 'std_crv on a 2-D array with mixed signs: %r, element by element %r' % (v2, ref2.tolist()))
     # an array that starts with an exact zero is converted element by element like any other
     lead0 = np.concatenate([[0.0], grid])
     v0 = call(std_crv, lead0)
